@@ -248,8 +248,25 @@ class Ctx:
         key = (fname, arg.sexpr())
         if key in self.apps:
             return self.apps[key][1]
-        v = self.fresh(fname) if name is None else z3.Real(name)
         lst = self.by_f.setdefault(fname, [])
+        tol = getattr(self, "uf_tol", None)
+        if tol is not None and name is None:
+            # harness switch (C28): arguments that are the same polynomial up to a relative perturbation `tol` of every
+            # coefficient (the same quantity computed by two implementations with differently rounded float constants)
+            # share one application
+            from .harness import poly_of
+            from fractions import Fraction
+            try:
+                pa = poly_of(arg)
+                for (a2, v2) in lst:
+                    pb = poly_of(a2)
+                    if all(abs(pa.get(m, Fraction(0)) - pb.get(m, Fraction(0))) <= Fraction(tol) * max(abs(pa.get(m, Fraction(0))), abs(pb.get(m, Fraction(0))))
+                           for m in set(pa) | set(pb)):
+                        self.apps[key] = (arg, v2)
+                        return v2
+            except HarnessError:
+                pass
+        v = self.fresh(fname) if name is None else z3.Real(name)
         for (a2, v2) in lst:
             if is_const(arg) and is_const(a2):
                 continue  # distinct constants
